@@ -1,5 +1,6 @@
 """C17 - dynamic bucketing conserves examples and honours its limits."""
 import itertools
+import common
 import json
 import random
 import warnings
@@ -25,6 +26,7 @@ class Src:
 
 
 def run_impl(cfg):
+    common.gc_point()
     log = []
     src = Src(cfg['lens'], log)
     kw = dict(batch_size=cfg['batch'], len_key='len', max_padding_rate=cfg['rate'],
